@@ -90,6 +90,13 @@ CHECKS["C08"] = {
     "note": TRUST + " Order semantics of slice::Iter, Enumerate, Zip, Map, for_each, fold are trusted std.",
 }
 
+CHECKS["C12"] = {
+    "technique": "compile-fail witnesses in accept/reject twins (rustc as oracle) + universal item-fact rules on unsafe auto-trait impls, Copy/Clone bounds, sealedness and signature regions",
+    "text": "The oracle is the compiler: a generated corpus of minimal programs in accept/reject twins differing in exactly one length, bound or lifetime (quick: ~140 twins on nightly; thorough: all tuple arities, nightly + stable) is type-checked against the working tree's library - zip in all nine stack receiver x argument forms + boxed, comparisons, split, pop/remove on empty, lengthen/concat/shorten annotations, native-array/tuple conversions, flatten/unflatten, chunk reinterpretation, arr!/box_arr!, ConstArrayLength, Send/Sync/Copy/Clone of arrays and iterators, sealedness, and for every reference-returning API: view of a local, & -> &mut upgrade, 'static upgrade, two live &mut views; every accept twin must compile (so a reject cannot pass for a wrong path) and every reject twin must fail with a code of its expected class. Universal rules on the type-checked crate: each unsafe impl Send/Sync bounds every element parameter by the same auto trait; Copy for the array implies T: Copy by induction over the storage impls; Clone requires T: Clone; the iterator has no hand-written auto-trait impl; ArrayLength is sealed; every function that manufactures a reference from a raw pointer / from_raw_parts / a reference transmute ties each returned region and &mut-ness to an input.",
+    "design_ref": "DESIGN.md §3 C12",
+    "note": "Trusted: rustc's type checker, trait solver and borrow checker. Programs outside the corpus are covered only by the universal rules.",
+}
+
 NOT_APPLICABLE = {}
 
 PENDING = "check under construction in this round; see DESIGN.md"
